@@ -66,6 +66,7 @@ class DateTimeArray(MutableSequence[DateTime]):
             IndexError: If index is out of range.
         """
         if isinstance(index, int):
+            index = int(index)  # a bool is an int for a list; NumPy would take it for a mask
             entry = self._array[index].item()
             as_tuple = TimeValueTuple.from_cvi(*entry)
             return DateTime.from_tuple(as_tuple)
@@ -100,6 +101,7 @@ class DateTimeArray(MutableSequence[DateTime]):
             IndexError: If index is out of range.
         """
         if isinstance(index, int):
+            index = int(index)  # a bool is an int for a list; NumPy would take it for a mask
             if not isinstance(value, DateTime):
                 raise invalid_arg_type("value", "DateTime", value)
             self._array[index] = value.to_tuple().to_cvi()
@@ -157,6 +159,8 @@ class DateTimeArray(MutableSequence[DateTime]):
             IndexError: If index is out of range.
         """
         if isinstance(index, (int, slice)):
+            if isinstance(index, int):
+                index = int(index)  # a bool is an int for a list; NumPy would take it for a mask
             self._array = np.delete(self._array, index)
         else:
             raise invalid_arg_type("index", "int or slice", index)
@@ -173,7 +177,7 @@ class DateTimeArray(MutableSequence[DateTime]):
             raise invalid_arg_type("value", "DateTime", value)
         lower = -len(self._array)
         upper = len(self._array)
-        index = min(max(index, lower), upper)
+        index = min(max(int(index), lower), upper)
         as_cvi = value.to_tuple().to_cvi()
         self._array = np.insert(self._array, index, as_cvi)
 
